@@ -171,6 +171,7 @@ def check_method(code, sel, allowed_addrs, tier, name, fixed=None, shape="arbitr
         if m is not None:
             data = calldata_from_model(m, eng)
             cex = {"method": name, "caller": "0x%040x" % m.eval(eng.caller, model_completion=True).as_long(),
+                   "origin": "0x%040x" % (m.eval(z3.BitVec("origin", W), model_completion=True).as_long() & ((1 << 160) - 1)),
                    "callvalue": hex(m.eval(eng.callvalue, model_completion=True).as_long()), "calldata": data.hex(),
                    "ends": p.end, "sstores": len(p.sstores), "calls": len(p.calls), "logs": len(p.logs),
                    "storage_reads_note": "storage is arbitrary in the model; the replay uses the reads listed under 'storage'",
@@ -257,9 +258,18 @@ def main():
                 for desc, fn in layouts(fns[mname]["inputs"]):
                     fixed, size = canonical_layout(fns[mname]["inputs"], fn)
                     runs.append((fixed, "canonical ABI layout, " + desc))
-            for fixed, shape in runs:
+            fallback = (rel, mname) not in DECODED_FIRST
+            while runs:
+                fixed, shape = runs.pop(0)
                 print("evmsym guards:", rel.split("/")[-1], sig[:40], "|", shape, file=sys.stderr, flush=True)
                 res, cex = check_method(code, sel, [A[w] for w in who], tier, sig, fixed, shape)
+                if fallback and fixed is None and res["verdict"] == "inconclusive":
+                    # the guard did not stop the run and the body is beyond the budget with arbitrary call data: look for a
+                    # non-reverting path over the canonical layouts, where the body runs on concrete lengths
+                    fallback = False
+                    for desc, fn in layouts(fns[mname]["inputs"]):
+                        fx, _ = canonical_layout(fns[mname]["inputs"], fn)
+                        runs.append((fx, "canonical ABI layout, " + desc + " (after an inconclusive run on arbitrary call data)"))
                 res["contract"] = rel
                 res["code_bytes"] = len(code)
                 res["allowed_names"] = who
